@@ -488,6 +488,33 @@ func (c *Ctx) finish(pd *propDef, start time.Time) int {
 		}
 		return obls[i].Construct < obls[j].Construct
 	})
+	// A known finding names the construct it was found in. When that construct no longer exists in this run at all (the
+	// function or variable was renamed or moved within its package), the entry follows the code: it matches a violated
+	// obligation of the same rule and the same package whose key differs only in the declaration's name. An entry whose
+	// own construct is still present never moves, so a second, different violation is still reported.
+	present := map[string]bool{}
+	for _, o := range obls {
+		present[o.Rule+"|"+o.Construct] = true
+	}
+	declFree := func(construct string) string {
+		head, rest, _ := strings.Cut(construct, "|")
+		pkgPart := head
+		if i := strings.LastIndex(head, "/"); i >= 0 {
+			if j := strings.Index(head[i:], "."); j >= 0 {
+				pkgPart = head[:i+j]
+			}
+		} else if j := strings.Index(head, "."); j >= 0 {
+			pkgPart = head[:j]
+		}
+		return pkgPart + "|" + rest
+	}
+	moved := map[string]KnownFinding{} // rule|declaration-free construct → entry whose own construct vanished
+	for k, e := range known {
+		if !present[k] {
+			moved[e.Rule+"|"+declFree(e.Construct)] = e
+		}
+	}
+	usedMoved := map[string]bool{}
 	replayDir := filepath.Join(c.VerifDir, "evidence", "replay")
 	nviol, ndis, nknown := 0, 0, 0
 	var lines []string
@@ -505,6 +532,17 @@ func (c *Ctx) finish(pd *propDef, start time.Time) int {
 				matched = append(matched, k)
 				lines = append(lines, fmt.Sprintf("KNOWN-FINDING: property=%s %s %s — %s", pd.ID, o.Rule, o.Construct, e.What))
 				continue
+			}
+			if o.Status == Violated {
+				mk := o.Rule + "|" + declFree(o.Construct)
+				if e, ok := moved[mk]; ok && !usedMoved[mk] {
+					usedMoved[mk] = true
+					o.Known = true
+					nknown++
+					matched = append(matched, e.Rule+"|"+e.Construct)
+					lines = append(lines, fmt.Sprintf("KNOWN-FINDING: property=%s %s %s — %s (recorded for %s, which no longer exists under that name)", pd.ID, o.Rule, o.Construct, e.What, e.Construct))
+					continue
+				}
 			}
 			nviol++
 			_ = os.MkdirAll(replayDir, 0o755)
